@@ -15,7 +15,7 @@ RULE = ("case = generic SDE (Stratonovich, 4 noise types, drawn batch/state/nois
         "solve (retain_graph; both passes compared) x entropy. "
         "Gradients of the loss w.r.t. y0 and every parameter from sdeint_adjoint(method='reversible_heun', "
         "adjoint_method='adjoint_reversible_heun') are compared with backprop through sdeint(method='reversible_heun'): "
-        "global relative difference <= 1e-9 + 1e3 * (how far the backprop gradient itself moves when y0 is perturbed by 1e-15: the "
+        "global relative difference <= 1e-9 + 1e3 * (how far the backprop / adjoint gradients themselves move when y0 is perturbed by 1e-15: the "
         "rounding-error amplification of that trajectory) (per tensor, with an absolute floor of 1e-9 * largest gradient norm). "
         "Non-trivial = >= 4 steps and >= 2 output times after ts[0]; distinct = distinct canonical case JSON.")
 ASSUMPTIONS = ["grids are dyadic: for non-dyadic dt, ts[0]+k*dt is not the solver's accumulated grid and the premise "
@@ -74,10 +74,10 @@ def run_case(case):
     if case.get("gswitch") is not None:
         n_steps = case["cuts"][-1]
         spec = dict(spec, gswitch=t0 + max(1, round(case["gswitch"] * n_steps)) * dt)
-    # third pass: backprop once more from an initial state moved by 1e-15 (relative) - how much the gradient itself moves
+    # third and fourth pass: backprop and the adjoint once more from an initial state moved by 1e-15 (relative) - how much each gradient itself moves
     # under a perturbation of the size of a few rounding errors is the yardstick for "up to floating-point rounding" on this
     # trajectory (hundreds of steps of an expanding flow amplify rounding errors far beyond 1e-16)
-    for adjoint, jitter in ((False, 0.0), (True, 0.0), (False, 1e-15)):
+    for adjoint, jitter in ((False, 0.0), (True, 0.0), (False, 1e-15), (True, 1e-15)):
         sde = sdes.build_generic(spec)
         y0 = (sdes.y0_for(spec) * (1.0 + jitter)).requires_grad_(case["y0_grad"])
         bm = sdes.make_bm(torchsde, spec, ts[0], ts[-1], case["entropy"], levy=case["levy"])
@@ -148,7 +148,7 @@ def run_case(case):
             # only the tensors asked for are compared (what the others receive is C09's bookkeeping clause)
             named = [("y0", y0.grad)] + sorted(((n_, p_.grad) for n_, p_ in selected), key=lambda kv: kv[0])
         grads.append((ys.detach(), named + first_pass))
-    (ys_a, ga), (ys_b, gb), (_, gc) = grads
+    (ys_a, ga), (ys_b, gb), (_, gc), (_, gd) = grads
     sig = {"noise_type": spec["noise_type"]}
     checks = 1
     if not torch.equal(ys_a, ys_b):
@@ -170,8 +170,11 @@ def run_case(case):
             continue
         denom = max(float(x.abs().max()), 1e-9 * biggest, 1e-300)
         e = float((x - y).abs().max()) / denom
-        z_ = gc[k_][1] if k_ < len(gc) else None
-        amp = float((x - z_).abs().max()) / denom if z_ is not None and z_.shape == x.shape else 0.0
+        amp = 0.0
+        for ref_, pert_ in ((x, gc), (y, gd)):      # backprop and adjoint (whose backward reconstruction has its own growth)
+            z_ = pert_[k_][1] if k_ < len(pert_) else None
+            if z_ is not None and z_.shape == ref_.shape:
+                amp = max(amp, float((ref_ - z_).abs().max()) / denom)
         worst = max(worst, e)
         worst_amp = max(worst_amp, e / (1e-9 + 1e3 * amp))
         if not e <= 1e-9 + 1e3 * amp:
